@@ -22,6 +22,33 @@ def agg_of(raw):
     return out
 
 
+def corpus_cases():
+    """hand-written boundary cases of the report: three securities and two years with an over-sale after gains
+    (the failing security's computed gains must count nowhere), a security failing on its first row (empty table
+    with an error), every security failing (aggregate: 'Since inception' only), a failing security that sorts
+    first / last, a foreign-currency row next to a failing security"""
+    import datetime as _dt
+    def r(sec, y, m, act, sh, aps, cur=None, rate=None, memo=None):
+        d = _dt.date(y, m, 15).toordinal()
+        x = {"sec": sec, "td": d, "sd": d, "act": act, "sh": core.D(sh), "aps": core.D(aps),
+             "com": None, "cur": cur, "rate": rate, "af": None}
+        if memo:
+            x["memo"] = memo
+        return x
+    good = [r("AAA", 2019, 1, "Buy", 10, 2), r("AAA", 2019, 6, "Sell", 4, 5), r("AAA", 2020, 6, "Sell", 4, 3)]
+    bad = [r("MMM", 2019, 2, "Buy", 5, 1), r("MMM", 2019, 7, "Sell", 2, 4), r("MMM", 2020, 7, "Sell", 9, 4)]
+    other = [r("ZZZ", 2019, 3, "Buy", 3, 10), r("ZZZ", 2020, 8, "Sell", 3, 11)]
+    usd = [r("UUU", 2019, 3, "Buy", 3, 10, "USD", core.D(13, 1)), r("UUU", 2020, 8, "Sell", 3, 11, "USD", core.D(125, 2))]
+    first_bad = [r("AAB", 2019, 4, "Sell", 1, 4)]
+    last_bad = [r("ZZZZ", 2019, 4, "Buy", 1, 4), r("ZZZZ", 2019, 5, "Sell", 2, 4)]
+    def mix(*ls):
+        return sorted([x for l in ls for x in l], key=lambda x: (x["sd"], x["sec"]))
+    cases = [good + bad + other, mix(good, bad, other), mix(bad, other), mix(good, bad), bad, first_bad,
+             mix(first_bad, last_bad), mix(good, first_bad, last_bad), mix(usd, bad), mix(good, usd, bad, other),
+             mix(first_bad, good), mix(good, last_bad, usd)]
+    return [{"rows": c, "inits": {}} for c in cases]
+
+
 def run(res, ctx):
     tier, seed = ctx["tier"], ctx["seed"]
     rng = random.Random(seed * 122949829 + 8)
@@ -169,6 +196,72 @@ def run(res, ctx):
                 st["distinct_nontrivial"] += 1
                 if len(samples) < 2:
                     samples.append({"A": x["hc"]["files"][0], "B": y["hc"]["files"][0]})
+    # ---- the report security by security (Model/AppRender.v; theorems C08_report_entry, C08_table_independent,
+    # C08_error_is_local, C08_aggregate_ignores_failed, C08_aggregate_is_sum_of_tables): the extracted components
+    # against run_acb_app_to_render_model on every run; the run without a failing security's rows
+    import c08agg
+    import rendermodel
+    cst = collections.Counter()
+    crafted = corecheck.run_cases(ctx, corpus_cases(), render=True)
+    allruns = list(ra) + list(rb) + list(ri) + crafted
+    usable = [r for r in allruns if core.diff_exact(r["dec"], r["impl"]) is None and r["impl"]["status"] != "panic"]
+    cst["components:skipped-panic-or-ledger-differs"] = len(allruns) - len(usable)
+    comps = c08agg.run_components([r["case"] for r in usable])
+    wo_jobs = []
+    for r, m in zip(usable, comps):
+        status, out = rendermodel.compare_run(r, m, cst)
+        cst["components:" + status] += 1
+        nums = c08agg.compare_numbers(r, m) if status == "compared" else []
+        for mm in out[:2]:
+            res.violation("broken-correspondence", "per-security report components of the model and the implementation differ (%s view, table %s, column %s): %s" % (
+                mm["view"], mm["table"], mm["column"], mm["what"]),
+                {"theorem_or_projection": "report components (Model/AppRender.v own_table / own_errors / app_aggregate against approot.rs run_acb_app_to_render_model)",
+                 "input": r["hc"]}, found_input=False)
+        for msg in nums[:2]:
+            res.violation("broken-correspondence", "per-security report components: " + msg,
+                          {"theorem_or_projection": "report components (Model/AppRender.v footer_gains / app_aggregate against approot.rs get_cumulative_capital_gains)",
+                           "input": r["hc"]}, found_input=False)
+        if status == "compared" and r["impl"]["status"] == "ok":
+            cst["components:tables"] += len(r["impl"]["secs"])
+            names = {v: k for k, v in r["st"].items()}
+            failed = sorted(names[s] for s, so in r["impl"]["secs"].items() if so["stop"][0] == 1)
+            cst["components:tables-with-error"] += len(failed)
+            if failed and len(r["impl"]["secs"]) >= 2 and len(wo_jobs) < (120 if tier == "quick" else 2500):
+                wo_jobs.append((r, failed[0]))
+    # the run without the failing security's rows: (a) implementation against implementation, string for string;
+    # (b) the model's run without them (rows keep their read indices) against the implementation's tables of the
+    # OTHER securities and aggregate in the run with them
+    red_cases = [{"rows": [x for x in r["case"]["rows"] if x["sec"] != t], "inits": r["case"].get("inits", {})} for r, t in wo_jobs]
+    red_runs = corecheck.run_cases(ctx, red_cases, render=True) if red_cases else []
+    wo_models = c08agg.run_without([r["case"] for r, _ in wo_jobs], [r["st"][t] for r, t in wo_jobs]) if wo_jobs else []
+    for (r, t), rr, m in zip(wo_jobs, red_runs, wo_models):
+        cst["without-failed:runs"] += 1
+        if rr["impl"]["status"] == "panic" or r["impl"]["status"] != "ok":
+            continue
+        for msg in c08agg.same_tables(r, rr, t)[:2]:
+            res.violation("failing-input", "the error of %s is not local: %s" % (t, msg),
+                          {"input_with": r["hc"], "input_without": rr["hc"], "failing_security": t})
+        r2 = c08agg.drop_security(r, t)
+        if m["status"] == "ok":
+            for key in ("full", "cents"):
+                if m[key]["status"] == "ok":
+                    m[key]["value"]["secs"].pop(r["st"][t], None)
+            m["own"].pop(r["st"][t], None)
+        status, out = rendermodel.compare_run(r2, m, cst)
+        cst["without-failed:" + status] += 1
+        for mm in out[:2] + [{"view": "full", "table": "-", "column": "figures", "what": x} for x in c08agg.compare_numbers(r2, m)[:2]]:
+            res.violation("broken-correspondence", "the model's run WITHOUT the rows of the failing security %s and the implementation's tables of the other securities WITH them differ (%s view, table %s, column %s): %s" % (
+                t, mm["view"], mm["table"], mm["column"], mm["what"]),
+                {"theorem_or_projection": "C08_error_is_local / C08_aggregate_ignores_failed", "input": r["hc"], "failing_security": t}, found_input=False)
+    res.coverage["report_components"] = {
+        "runs": {k: v for k, v in sorted(cst.items()) if not k.startswith("cells:") and not k.startswith("leaves:")},
+        "cells_compared": sum(v for k, v in cst.items() if k.startswith("cells:")),
+        "rule": "every run of this check (A, B, interleavings, hand-written corpus) whose ledger agrees with the model: the report assembled from the extracted "
+                "per-security components (own_table, own error, render_aggregate of app_aggregate; rust_decimal rounding) against run_acb_app_to_render_model, "
+                "every cell of both views, error slots, aggregate rows; footer figures and aggregate also as numbers (equal, not close); for runs with a failing "
+                "security: the implementation re-run without that security's rows (tables of the others and aggregate identical string for string) and the model's "
+                "run without them against the implementation's other tables with them",
+    }
     if corr and not res.violations:
         r, d = corr[0]
         res.violation("broken-correspondence", "model (dec) and implementation differ: " + d,
